@@ -680,8 +680,10 @@ def e2e(case: dict) -> dict:
 
 
 def run(ctx: core.Ctx) -> None:
+    marks = [("start", time.time())]
     prepare(ctx)
     h = record_histories()
+    marks.append(("prepare+record", time.time()))
     _Z["gens"] = h["gens"]
     _Z["fb"] = {n: [set(frame_boundaries(g)) for g in gs] for n, gs in h["gens"].items()}
     _Z["stale"] = make_stale()
@@ -765,13 +767,14 @@ def run(ctx: core.Ctx) -> None:
             mism += 1
             raise core.HarnessError(f"seam validation failed: class {k} gives {r['outcome']} end-to-end for {case}")
     ctx.cov["end_to_end_validated_representatives"] = len(reps)
+    marks.append(("crash-states+e2e", time.time()))
     # ---- Part B: schedules ------------------------------------------------------------------
-    plans = [(2, "cold", 1), (2, "nofolder", 2), (2, "valid-quick-only", 2), (2, "empty", 1), (2, "truncated", 2), (2, "stale", 1), (2, "outdated", 1), (2, "valid", 1)]
+    plans = [(2, "cold", 1), (2, "nofolder", 1), (2, "valid-quick-only", 2), (2, "empty", 1), (2, "truncated", 2), (2, "stale", 1), (2, "outdated", 1), (2, "valid", 1)]
     if ctx.tier == "thorough":
         plans = [(2, "cold", 2), (2, "nofolder", 3), (3, "nofolder", 2), (2, "valid-quick-only", 3), (2, "empty", 3), (2, "truncated", 3), (2, "stale", 2), (2, "outdated", 2), (2, "valid", 2),
                  (3, "valid-quick-only", 2), (3, "truncated", 2), (3, "empty", 1)]
     else:
-        plans += [(3, "truncated", 1), (3, "valid-quick-only", 1)]
+        plans += [(3, "truncated", 1)]
     sched_cov = {}
 
     def explore(n: int, init: str, bound: int, kills: list) -> None:
@@ -805,6 +808,7 @@ def run(ctx: core.Ctx) -> None:
 
     for n, init, bound in plans:
         explore(n, init, bound, [])
+    marks.append(("schedules", time.time()))
     # a peer is killed while the others are running: kill point x interleaving.  The victim is the last process; the
     # number of its scheduling points is taken from a run of one process alone on the same start state.
     kplans = [(2, "cold", 1), (2, "valid-quick-only", 1), (2, "truncated", 1)]
@@ -819,6 +823,7 @@ def run(ctx: core.Ctx) -> None:
             raise core.HarnessError(f"solo run failed: {solo}")
         explore(n, init, bound, [[n - 1, k] for k in range(1, solo["own_points"][0] + 1)])
     ctx.cov["schedules"] = sched_cov
+    marks.append(("kill-schedules", time.time()))
     # ---- Part C: stale because the sources changed -------------------------------------------
     sc = source_cases(ctx.tier)
     nsrc = 0
@@ -833,6 +838,7 @@ def run(ctx: core.Ctx) -> None:
             nprocs += res.get("procs", 0)
     if nsrc and not nobs:
         raise core.HarnessError("source-edit family is vacuous: no edit changed the cache-disabled answers")
+    marks.append(("source-histories", time.time()))
     # ---- Part A, second half (thorough): all remaining prefix lengths ---------------------------
     if late_cases:
         nlate = 0
@@ -847,6 +853,7 @@ def run(ctx: core.Ctx) -> None:
                                         "process_runs": nprocs, "edit_alphabet": SRC_EDITS + ["revert:<edit>", "defaults+sch_mbi"]}
     ctx.count("source_edit_histories", nsrc)
     ctx.cov["transitions"] = ctx.counters.get("schedules", 0)
+    ctx.cov["part_wall_s"] = {b[0]: round(b[1] - a[1], 1) for a, b in zip(marks, marks[1:])}
     # ---- free-running pass (sanity, not coverage) --------------------------------------------
     fr = free_running(ctx)
     ctx.cov["free_running_pass"] = fr
